@@ -14,19 +14,10 @@ KNOWN_TEXT = {
     "children-stale-after-remove": "removeDiskNode leaves the removed snapshot's diskChildrenMap entry: a snapshot created later with the "
                                    "same name is listed with a stale second child (and cannot be removed) until the replica is reopened",
     "revert-target": "Revert to a name that is not a non-head chain member (the head itself / an off-chain file) destroys the directory",
-    "createdisk-memory-on-failure": "createDisk changes diskData / activeDiskData / volume.files before volume.meta is committed and does not "
-                                    "undo it when the commit fails: after a failed Snapshot Chain() fails and writes fail ('file already closed')",
-    "resize-size-on-failure": "Resize truncates the images and sets r.info.Size before volume.meta is written: a failed Resize leaves the new size",
     "remove-data-bearing-snapshot-read": "RemoveDiffDisk (raw removedisk, no merge) of a snapshot that holds the newest copy of a block: the running "
                                          "process reads that block as zeros (RemoveIndex clears the location entry), after close + open the "
                                          "block shows the older copy a lower snapshot holds: reopening does not reproduce the same data",
-    "checkpoint-set-on-failure": "SetCheckpoint sets r.info.Checkpoint before volume.meta is written: a failed SetCheckpoint leaves the new value "
-                                 "in memory (persisted by the next metadata update)",
 }
-
-
-def info_but(a, b, skip):
-    return a is not None and b is not None and all(a.get(k) == b.get(k) for k in a if k not in skip and k != "dirty")
 
 
 def shape_of(case, outs, failstep):
@@ -63,18 +54,6 @@ def shape_of(case, outs, failstep):
             if q["op"] == "rm" and ob["res"] == "ok" and pb.get("chain") and ob.get("chain") and len(ob["chain"]) < len(pb["chain"]) \
                     and pb.get("live") != ob.get("live"):
                 return "remove-data-bearing-snapshot-read"
-    if o.get("blk") and cur["res"] == "err" and prev.get("open") and cur.get("open"):
-        # an operation made to fail by an obstacle at volume.meta.tmp; the shapes are stated on the Info() before / after
-        members = [n for c in (prev.get("chain") or []) for n in (c, c + ".meta")]
-        if o["op"] == "snap" and info_but(prev.get("info"), cur.get("info"), ()) and prev.get("chain") \
-                and all(n in cur["dir"] and cur["dir"][n].get("ino") == prev["dir"].get(n, {}).get("ino") for n in members):
-            # Info() is unchanged and every file of the chain is still there (only files off the chain may have gone:
-            # a stale head of an earlier failed operation is removed by createNewHead)
-            return "createdisk-memory-on-failure"
-        if o["op"] == "resize" and info_but(prev.get("info"), cur.get("info"), ("size",)) and prev.get("chain") == cur.get("chain"):
-            return "resize-size-on-failure"
-        if o["op"] == "checkpoint" and info_but(prev.get("info"), cur.get("info"), ("checkpoint",)) and prev.get("chain") == cur.get("chain"):
-            return "checkpoint-set-on-failure"
     return None
 
 
@@ -84,7 +63,6 @@ def gen_cases(ctx, n_random):
     for i in range(n_random):
         kb = 0.08 if i % 10 == 0 else 0.0
         g = metalib.Gen(rng, invalid=0.3, known_bad=kb)
-        g.block_known = (i % 5 == 1)
         cases.append(dict(ops=g.history(rng.randint(8, 22)), maxchain=rng.choice([0, 0, 0, 0, 6])))
     return cases
 
@@ -145,7 +123,7 @@ def main(ctx, replay=None):
         if sh in seen:
             continue
         seen.add(sh)
-        if b["case"] < nfixed or sh.endswith("-on-failure") or sh == "remove-data-bearing-snapshot-read":
+        if b["case"] < nfixed or sh == "remove-data-bearing-snapshot-read":
             # one of the hand-minimised histories of metalib.known_cases(): nothing to shrink
             vlib.known_finding(ctx, sh, KNOWN_TEXT[sh])
             continue
